@@ -454,7 +454,11 @@ func emitComp(c *hxlib.Ctx, kind string, x []byte) {
 	cs := hxlib.Case{Kind: kind, Input: map[string]interface{}{"t": "comp", "v": compIn{hex.EncodeToString(x)}},
 		Nontrivial: nt, OracleErr: msg}
 	if !c.OracleOnly {
-		cs.Coq = fmt.Sprintf("(CComp %s %s %s)", hxpack.Bytes(x), hxpack.Bytes(comp), hxpack.Bytes(dec))
+		if bytes.Equal(dec, x) {
+			cs.Coq = fmt.Sprintf("(CCompRT %s %s)", hxpack.Bytes(x), hxpack.Bytes(comp))
+		} else {
+			cs.Coq = fmt.Sprintf("(CComp %s %s %s)", hxpack.Bytes(x), hxpack.Bytes(comp), hxpack.Bytes(dec))
+		}
 	} else {
 		cs.Key = hex.EncodeToString(x)
 	}
